@@ -21,7 +21,7 @@ RULE = (
 )
 REQUIRED = ["construct_contract_evals", "decompose_checked", "string_roundtrip_checked", "variants/renumber",
             "variants/rewrite", "variants/reversed", "synthetic_pairs", "bond_only_on_one_side", "explicit_h_reactions",
-            "charge_changing_reactions", "aromatic_order_changes"]
+            "charge_changing_reactions", "aromatic_order_changes", "history_reduced_attrs_first", "legacy_converter_checked"]
 ASSUMPTIONS = [
     "reference reader: RDKit MolFromSmiles(sanitize=False)+SanitizeMol (keeps mapped hydrogens), canonical non-isomeric SMILES",
     "stereochemistry is not carried by the graph layer and is not compared",
@@ -122,6 +122,13 @@ def check_reaction(ctx, r, kind, tag):
 
     wit = {"rsmi": r, "variant": kind}
     ctx.count("variants/" + kind)
+    if ctx.rng.random() < 0.3:
+        # history: the same text converted earlier with a reduced attribute selection must not influence the
+        # default conversion that follows
+        from synkit.IO.chem_converter import smiles_to_graph
+        rsmi_to_graph(r, node_attrs=["element", "charge", "atom_map"])
+        smiles_to_graph(r.split(">>")[0], node_attrs=["element", "atom_map"], edge_attrs=[])
+        ctx.count("history_reduced_attrs_first")
     G, H = rsmi_to_graph(r)
     if G is None or H is None:
         ctx.violation("parse", wit, "rsmi_to_graph returned None for a well-formed reaction")
@@ -145,6 +152,20 @@ def check_reaction(ctx, r, kind, tag):
         if gb != bonds:
             ctx.violation("parse-bonds", wit, f"{side} bonds differ from the reference reader")
             return
+    # second public entry point of the same converter (legacy classmethod), all legal flag pairs
+    from synkit.IO.mol_to_graph import MolToGraph
+    for side, smi, g in (("reactant", a, G), ("product", b, H)):
+        mol = R.parse(smi)
+        for drop, useidx in ((False, True), (True, True)):
+            for lw in (False, True):
+                lg = MolToGraph.mol_to_graph(mol, drop_non_aam=drop, light_weight=lw, use_index_as_atom_map=useidx)
+                ctx.count("legacy_converter_checked")
+                keys = ("element", "charge", "hcount", "aromatic") if not lw else ("element", "charge")
+                if set(lg.nodes) != set(g.nodes) or any(lg.nodes[n].get(k) != g.nodes[n].get(k) for n in g.nodes for k in keys if k in lg.nodes[n]) \
+                        or {frozenset(e): lg.edges[e].get("order") for e in lg.edges} != {frozenset(e): g.edges[e].get("order") for e in g.edges}:
+                    ctx.violation("legacy-converter", {**wit, "side": side, "drop_non_aam": drop, "use_index_as_atom_map": useidx, "light_weight": lw},
+                                  f"MolToGraph.mol_to_graph(drop_non_aam={drop}, light_weight={lw}, use_index_as_atom_map={useidx}) differs from the graph used for the {side} side")
+                    break
     its = ITSConstruction().ITSGraph(G, H)
     for flag in (False, True):
         its_f = its if not flag else ITSConstruction().ITSGraph(G, H, ignore_aromaticity=True)
